@@ -188,3 +188,11 @@ pub fn l4_remove_data_is_filter_keeping_order() {
 // (Kani harnesses for the two strategies shipped with the generic builder -- retain + any + push over
 // symbolic vectors of <= 3 / <= 2 / <= 2 elements -- did not finish in 10 minutes; those two functions
 // are covered by the bounded-exhaustive request sequences of `bx builder-history` instead.)
+
+// `./check --replay` writes Kani's counterexample (a unit test) into this file and runs it natively
+// with `cargo kani playback`; it is empty otherwise.
+#[cfg(test)]
+mod playback_generated {
+    use super::*;
+    include!(concat!(env!("VERIF_KANI_DIR"), "/playback_definition.rs"));
+}
